@@ -13,7 +13,8 @@ META = {
                    'the Unix-epoch constant are paired (+1/-1 on the same constant, which folds to 946684800 = 86400 * 10957).',
     'decided': 'offset is added when building fields and subtracted when converting back; Unix variants use one constant with '
                'opposite signs; convertToTimeZone/convertToTimeOffset pass the unmodified epoch seconds; compareTo is the sign '
-               'of the difference of the two instants; ZonedDateTime::forEpochSeconds uses one instant for both look-up and fields; '
+               'of the difference of the two instants on every path, obtained by comparing (never by subtracting) them; '
+               'ZonedDateTime::forEpochSeconds uses one instant for both look-up and fields; '
                'the two floor-division twins are the same guarded quotient and pair with days*86400 + seconds',
     'not_decided': 'that the date formulas invert each other for all 2^32 values (numeric round trip)',
     'assumptions': ['clang 14 parser', 'value-preserving casts are dropped by the canonicaliser (int32 arithmetic, no overflow analysis)'],
